@@ -1,14 +1,25 @@
 package main
 
-// Translator table for C04: the order in which values.Options.MergeValues ranges over the
-// flag families (pkg/cli/values/options.go).  Each `for ... range opts.<Field>` statement
-// at the top level of the method body contributes <Field>, in source order, together with
-// the functions it calls on the accumulated map (so that a family that stops being merged
-// into `base`, or is merged with a different function, changes the table too).
+// Translator table for C04: the order in which values.Options.MergeValues merges the flag
+// families into the accumulated map (pkg/cli/values).
+//
+// The method body is walked in execution (source) order.  A `for ... range <receiver>.<Field>`
+// statement opens the family <Field>; every package-qualified call inside it that receives
+// the accumulated map (`base`, or whatever it is called where the statement lives) is
+// attributed to the family.  Calls of functions and methods of the same package, of local
+// closures and of function literals are FOLLOWED (bounded depth), with the receiver and the
+// accumulated map tracked through the parameters — so the table is the order in which the
+// merge operations execute, wherever the statements live: moving a loop body (or a loop) into
+// a helper function does not change it, while a family that stops being merged into the map,
+// is merged with a different function or at a different position does.
 
 import (
 	"fmt"
 	"go/ast"
+	"go/parser"
+	"go/token"
+	"os"
+	"path/filepath"
 	"strings"
 
 	"verif/harness/internal/hx"
@@ -16,72 +27,265 @@ import (
 
 func init() { registerTable("ValueOrder", genValueOrder) }
 
+const c04MaxInline = 4
+
+type c04Family struct {
+	field string
+	calls []string
+}
+
+type c04Walker struct {
+	funcs   map[string]*ast.FuncDecl // same-package functions by name
+	methods map[string]*ast.FuncDecl // same-package methods by name (any receiver type)
+	fams    []*c04Family
+}
+
+// c04Env: what the identifiers of the function being walked stand for.
+type c04Env struct {
+	recv     map[string]bool         // names bound to the Options receiver
+	base     map[string]bool         // names bound to the accumulated map
+	closures map[string]*ast.FuncLit // local variables bound to a function literal
+	cur      *c04Family
+	depth    int
+}
+
+func (e *c04Env) child() *c04Env {
+	n := &c04Env{recv: map[string]bool{}, base: map[string]bool{}, closures: map[string]*ast.FuncLit{}, cur: e.cur, depth: e.depth + 1}
+	return n
+}
+
+func c04ParsePkg(repo, rel string) ([]*ast.File, error) {
+	dir := filepath.Join(repo, rel)
+	ents, err := os.ReadDir(dir)
+	if err != nil {
+		return nil, err
+	}
+	fset := token.NewFileSet()
+	var out []*ast.File
+	for _, e := range ents {
+		n := e.Name()
+		if e.IsDir() || !strings.HasSuffix(n, ".go") || strings.HasSuffix(n, "_test.go") {
+			continue
+		}
+		f, err := parser.ParseFile(fset, filepath.Join(dir, n), nil, 0)
+		if err != nil {
+			return nil, err
+		}
+		out = append(out, f)
+	}
+	return out, nil
+}
+
+func c04IdentName(e ast.Expr) string {
+	if id, ok := e.(*ast.Ident); ok {
+		return id.Name
+	}
+	return ""
+}
+
+// bind: the environment of a callee from the arguments of the call.
+func (w *c04Walker) bind(env *c04Env, params *ast.FieldList, args []ast.Expr, capture bool) *c04Env {
+	n := env.child()
+	if capture { // a closure sees the enclosing function's names
+		for k := range env.recv {
+			n.recv[k] = true
+		}
+		for k := range env.base {
+			n.base[k] = true
+		}
+		for k, v := range env.closures {
+			n.closures[k] = v
+		}
+	}
+	if params == nil {
+		return n
+	}
+	i := 0
+	for _, f := range params.List {
+		names := f.Names
+		if len(names) == 0 {
+			i++
+			continue
+		}
+		for _, nm := range names {
+			if i < len(args) {
+				a := c04IdentName(args[i])
+				// a parameter shadows a captured name
+				delete(n.recv, nm.Name)
+				delete(n.base, nm.Name)
+				if a != "" && env.recv[a] {
+					n.recv[nm.Name] = true
+				}
+				if a != "" && env.base[a] {
+					n.base[nm.Name] = true
+				}
+			}
+			i++
+		}
+	}
+	return n
+}
+
+func (w *c04Walker) walkBlock(b *ast.BlockStmt, env *c04Env) {
+	if b == nil {
+		return
+	}
+	for _, st := range b.List {
+		w.walk(st, env)
+	}
+}
+
+// walk visits a node in source order.
+func (w *c04Walker) walk(n ast.Node, env *c04Env) {
+	if n == nil {
+		return
+	}
+	ast.Inspect(n, func(x ast.Node) bool {
+		switch v := x.(type) {
+		case *ast.FuncLit:
+			return false // executed where it is called, not where it is written
+		case *ast.AssignStmt:
+			// x := <accumulated map> / x := func(...) {...}
+			for i, l := range v.Lhs {
+				if i >= len(v.Rhs) || len(v.Lhs) != len(v.Rhs) {
+					break
+				}
+				ln := c04IdentName(l)
+				if ln == "" {
+					continue
+				}
+				if fl, ok := v.Rhs[i].(*ast.FuncLit); ok {
+					env.closures[ln] = fl
+				} else if rn := c04IdentName(v.Rhs[i]); rn != "" {
+					if env.base[rn] {
+						env.base[ln] = true
+					}
+					if env.recv[rn] {
+						env.recv[ln] = true
+					}
+				}
+			}
+			for _, r := range v.Rhs {
+				w.walk(r, env)
+			}
+			return false
+		case *ast.RangeStmt:
+			if sel, ok := v.X.(*ast.SelectorExpr); ok && env.recv[c04IdentName(sel.X)] {
+				fam := &c04Family{field: sel.Sel.Name}
+				w.fams = append(w.fams, fam)
+				saved := env.cur
+				env.cur = fam
+				w.walkBlock(v.Body, env)
+				env.cur = saved
+				return false
+			}
+			return true
+		case *ast.CallExpr:
+			for _, a := range v.Args { // arguments are evaluated before the call
+				w.walk(a, env)
+			}
+			w.call(v, env)
+			return false
+		}
+		return true
+	})
+}
+
+func (w *c04Walker) call(ce *ast.CallExpr, env *c04Env) {
+	usesBase := false
+	for _, a := range ce.Args {
+		if env.base[c04IdentName(a)] {
+			usesBase = true
+		}
+	}
+	switch f := ce.Fun.(type) {
+	case *ast.FuncLit:
+		if env.depth < c04MaxInline {
+			w.walkBlock(f.Body, w.bind(env, f.Type.Params, ce.Args, true))
+		}
+	case *ast.Ident:
+		if fl, ok := env.closures[f.Name]; ok {
+			if env.depth < c04MaxInline {
+				sub := w.bind(env, fl.Type.Params, ce.Args, true)
+				w.walkBlock(fl.Body, sub)
+			}
+			return
+		}
+		if fd, ok := w.funcs[f.Name]; ok && fd.Body != nil && env.depth < c04MaxInline {
+			sub := w.bind(env, fd.Type.Params, ce.Args, false)
+			if len(sub.base) > 0 || len(sub.recv) > 0 {
+				w.walkBlock(fd.Body, sub)
+			}
+		}
+	case *ast.SelectorExpr:
+		x := c04IdentName(f.X)
+		if x != "" && env.recv[x] {
+			// a method of the receiver: follow it
+			if fd, ok := w.methods[f.Sel.Name]; ok && fd.Body != nil && env.depth < c04MaxInline {
+				sub := w.bind(env, fd.Type.Params, ce.Args, false)
+				if fd.Recv != nil && len(fd.Recv.List) == 1 && len(fd.Recv.List[0].Names) == 1 {
+					sub.recv[fd.Recv.List[0].Names[0].Name] = true
+				}
+				w.walkBlock(fd.Body, sub)
+			}
+			return
+		}
+		if x != "" && usesBase && env.cur != nil && !env.base[x] {
+			env.cur.calls = append(env.cur.calls, x+"."+f.Sel.Name)
+		}
+	}
+}
+
 func genValueOrder(repo string) (string, error) {
-	f, _, err := parseFile(repo, "pkg/cli/values/options.go")
+	files, err := c04ParsePkg(repo, "pkg/cli/values")
 	if err != nil {
 		return "", err
 	}
-	var fields []string
-	var calls []string
-	found := false
-	for _, d := range f.Decls {
-		fd, ok := d.(*ast.FuncDecl)
-		if !ok || fd.Name.Name != "MergeValues" || fd.Recv == nil || fd.Body == nil {
-			continue
-		}
-		found = true
-		recv := ""
-		if len(fd.Recv.List) == 1 && len(fd.Recv.List[0].Names) == 1 {
-			recv = fd.Recv.List[0].Names[0].Name
-		}
-		for _, st := range fd.Body.List {
-			rs, ok := st.(*ast.RangeStmt)
+	w := &c04Walker{funcs: map[string]*ast.FuncDecl{}, methods: map[string]*ast.FuncDecl{}}
+	var root *ast.FuncDecl
+	for _, f := range files {
+		for _, d := range f.Decls {
+			fd, ok := d.(*ast.FuncDecl)
 			if !ok {
 				continue
 			}
-			sel, ok := rs.X.(*ast.SelectorExpr)
-			if !ok {
+			if fd.Recv == nil {
+				w.funcs[fd.Name.Name] = fd
 				continue
 			}
-			if id, ok := sel.X.(*ast.Ident); !ok || id.Name != recv {
-				continue
+			w.methods[fd.Name.Name] = fd
+			if fd.Name.Name == "MergeValues" && fd.Body != nil {
+				root = fd
 			}
-			fields = append(fields, sel.Sel.Name)
-			// package-qualified calls inside the loop body that receive `base`
-			var cs []string
-			ast.Inspect(rs.Body, func(n ast.Node) bool {
-				ce, ok := n.(*ast.CallExpr)
-				if !ok {
-					return true
-				}
-				fs, ok := ce.Fun.(*ast.SelectorExpr)
-				if !ok {
-					return true
-				}
-				pk, ok := fs.X.(*ast.Ident)
-				if !ok {
-					return true
-				}
-				usesBase := false
-				for _, a := range ce.Args {
-					if id, ok := a.(*ast.Ident); ok && id.Name == "base" {
-						usesBase = true
-					}
-				}
-				if usesBase {
-					cs = append(cs, pk.Name+"."+fs.Sel.Name)
-				}
-				return true
-			})
-			calls = append(calls, strings.Join(cs, "+"))
 		}
 	}
-	if !found {
-		return "", fmt.Errorf("method MergeValues not found in pkg/cli/values/options.go")
+	if root == nil {
+		return "", fmt.Errorf("method MergeValues not found in pkg/cli/values")
 	}
-	if len(fields) == 0 {
-		return "", fmt.Errorf("no `range opts.<Field>` statements found in MergeValues")
+	env := &c04Env{recv: map[string]bool{}, base: map[string]bool{}, closures: map[string]*ast.FuncLit{}}
+	if len(root.Recv.List) == 1 && len(root.Recv.List[0].Names) == 1 {
+		env.recv[root.Recv.List[0].Names[0].Name] = true
 	}
-	return fmt.Sprintf("(* pkg/cli/values/options.go, func (opts *Options) MergeValues: the flag families in the\n   order the source ranges over them (lowest precedence first), and the functions each loop\n   applies to the accumulated map *)\nDefinition value_order : list string := %s.\n\nDefinition value_order_calls : list string := %s.\n",
+	// the accumulated map: the local that MergeValues returns as its first result
+	for _, st := range root.Body.List {
+		if rs, ok := st.(*ast.ReturnStmt); ok && len(rs.Results) >= 1 {
+			if n := c04IdentName(rs.Results[0]); n != "" && n != "nil" {
+				env.base[n] = true
+			}
+		}
+	}
+	if len(env.base) == 0 {
+		return "", fmt.Errorf("MergeValues: cannot tell which local is the accumulated map (no top-level `return <ident>, ...`)")
+	}
+	w.walkBlock(root.Body, env)
+	if len(w.fams) == 0 {
+		return "", fmt.Errorf("no `range <receiver>.<Field>` statements reached from MergeValues")
+	}
+	var fields, calls []string
+	for _, f := range w.fams {
+		fields = append(fields, f.field)
+		calls = append(calls, strings.Join(f.calls, "+"))
+	}
+	return fmt.Sprintf("(* pkg/cli/values, func (opts *Options) MergeValues: the flag families in the order the\n   code ranges over them (lowest precedence first), and the functions each loop applies to the\n   accumulated map, in execution order (same-package helpers, methods and closures followed) *)\nDefinition value_order : list string := %s.\n\nDefinition value_order_calls : list string := %s.\n",
 		hx.CoqStrList(fields), hx.CoqStrList(calls)), nil
 }
